@@ -82,6 +82,53 @@ pub fn request(_seed: u64) -> usize {
                 found += 1;
             }
         }
+        // the session server answers the first request of a login with an error status (5xx, 429, 404): whatever the adapter does next
+        // (give up, or ask again), every request it sends for this login is the same well-formed one
+        for (status, name) in [(503u16, "Steve"), (500, "a&serverId=b"), (502, "x y"), (429, "Steve"), (404, "q?r#s")] {
+            let adapter = MojangAdapter::default().with_server_id("srv".to_string());
+            let expect_hash = reference_hash("srv", secret, key);
+            let mock = tokio::spawn({
+                let l = &listener as *const TcpListener as usize;
+                async move {
+                    let l = unsafe { &*(l as *const TcpListener) };
+                    let mut heads = Vec::<String>::new();
+                    for i in 0..6 {
+                        let Ok(Ok((mut s, _))) = tokio::time::timeout(std::time::Duration::from_millis(if i == 0 { 3000 } else { 900 }), l.accept()).await else { break };
+                        let mut buf = vec![0u8; 8192];
+                        let mut n = 0;
+                        loop {
+                            let Ok(k) = s.read(&mut buf[n..]).await else { break };
+                            if k == 0 { break; }
+                            n += k;
+                            if buf[..n].windows(4).any(|w| w == b"\r\n\r\n") { break; }
+                        }
+                        heads.push(String::from_utf8_lossy(&buf[..n]).lines().next().unwrap_or("").to_string());
+                        let body: &[u8] = if i == 0 { b"{}" } else { b"{\"id\":\"09879557e47945a9b434a56377674627\",\"name\":\"X\",\"properties\":[]}" };
+                        let line = if i == 0 { format!("HTTP/1.1 {status} Error") } else { "HTTP/1.1 200 OK".to_string() };
+                        let resp = format!("{line}\r\ncontent-type: application/json\r\ncontent-length: {}\r\nconnection: close\r\n\r\n", body.len());
+                        let _ = s.write_all(resp.as_bytes()).await;
+                        let _ = s.write_all(body).await;
+                        let _ = s.shutdown().await;
+                    }
+                    heads
+                }
+            });
+            let addr = SocketAddr::from_str("127.0.0.1:1").unwrap();
+            let id = Uuid::nil();
+            let _ = tokio::time::timeout(std::time::Duration::from_secs(8), adapter.authenticate(&addr, ("h", 1), 767, (name, &id), secret, key)).await;
+            let heads = tokio::time::timeout(std::time::Duration::from_secs(10), mock).await.ok().and_then(|r| r.ok()).unwrap_or_default();
+            if heads.is_empty() { println!("REPRODUCED mojang user name {name:?} (first answer {status}): no request reached the session server mock"); found += 1; }
+            let want = vec![("username".to_string(), name.to_string()), ("serverId".to_string(), expect_hash.clone())];
+            for (i, line) in heads.iter().enumerate() {
+                let target = line.split(' ').nth(1).unwrap_or("");
+                let (path, query) = target.split_once('?').unwrap_or((target, ""));
+                let pairs: Vec<(String, String)> = query.split('&').filter(|p| !p.is_empty()).map(|p| { let (k, v) = p.split_once('=').unwrap_or((p, "")); (pct_decode(k), pct_decode(v)) }).collect();
+                if path != "/session/minecraft/hasJoined" || pairs != want {
+                    println!("REPRODUCED mojang claimed user name {name:?}, request #{} of the login after the session server answered the first with {status}: request line {line:?} decodes to path {path:?} and parameters {pairs:?}, expected exactly {want:?}", i + 1);
+                    found += 1;
+                }
+            }
+        }
         // two connections claim the same name while the first lookup is still unanswered (the mock answers after 400 ms): each
         // connection's own has-joined request must reach the session server, with that connection's hash
         let adapter = std::sync::Arc::new(MojangAdapter::default().with_server_id("srv".to_string()));
